@@ -1,5 +1,5 @@
 """C10 - quiet and verbosity gate every write path identically."""
-import itertools, os
+import itertools, os, sys, json, subprocess
 from hutil import S, unS, err
 import termemu
 
@@ -7,19 +7,28 @@ MODEL = "C10"
 MODEL_ENTRY = "run_C10S"        # the driver's entry for C10 (Model/GatedSection.v): run_C10 and, next to it, the two-section sequences
 PROP_FILES = ["Props/C10.v"]
 W = 10                          # terminal width of the two-section sequences ("older content" takes two rows)
-RULE = ("exhaustive product: entry point (Output / SectionOutput / IO std+err / IO.section() std+err, every public writing "
-        "method found by reflection) x formatter (forced ANSI, unforced ANSI on plain stream, Plain, Null, unforced ANSI on an "
-        "ANSI-capable stream) x quiet x verbosity {0,1,2,4} x flags {None,0..9,-1,2^40+1,2^40+4}; non-trivial = a text-writing "
-        "entry point with flags not None/0; distinct by the whole tuple.  Two-section sequences (kind later): two sections on one "
-        "stream at width 10 (forced ANSI / ANSI stream / plain), the newer one optionally written to first, then both given quiet x "
-        "verbosity, then newer.write|write_line|overwrite|clear|clear(1) with every flags value (refused or not), then the older one "
+RULE = ("REFLECTION DRIVES THE TABLE: the modules of clikit.api.io and clikit.io are walked, every class that is an Output or an IO "
+        "is a target (Output, SectionOutput, IO, BufferedIO, ConsoleIO, NullIO on the unchanged tree; IO classes also through "
+        "their section()); every public member of every such class (cls.__dict__ along the MRO, so an override counts for the class "
+        "that overrides; properties included) is CALLED with generated arguments on recording streams, decorated and not, at DEBUG / "
+        "not quiet, and is a writer when the stream grew during the call or when the text it was given is on the stream after a "
+        "write into an older section (add_content).  A writer under a name Model/Gate.v has no row for, or a member that no "
+        "argument list can call, is a violation by itself.  Exhaustive product: every class x every writing method the model knows "
+        "x formatter (forced ANSI, unforced ANSI on plain stream, Plain, Null, unforced ANSI on an ANSI-capable stream) x quiet x "
+        "verbosity {0,1,2,4} x flags {None given, not given at all, 0..9,-1,2^40+1,2^40+4} x settings through the I/O or through its "
+        "outputs x (section targets) settings given to the section itself / given to the PARENT BEFORE section() is called; "
+        "non-trivial = a text-writing entry point with flags not None/0; distinct by the whole tuple.  Two-section sequences (kind "
+        "later): two sections on one stream at width 10 (forced ANSI / ANSI stream / plain), the newer one optionally written to "
+        "first, then both given quiet x verbosity - or the OUTPUT given them before the newer section is created (inh) -, then "
+        "newer.write|write_line|overwrite|add_content|clear|clear(1) with every flags value (refused or not), then the older one "
         "re-opened and older.write|write_line|overwrite|clear; the model (Model/GatedSection.v) computes the bytes of each of the "
         "two phases, every section's content and row count and the screen; compared with the implementation byte for byte.  Random "
         "gated sequences (4000 quick / 40000 thorough): 1-3 sections, 3-14 calls out of flagged write / write_line of marked texts "
-        "(plain, wrapped, tagged, two lines, empty), overwrite, clear / clear(1) / clear(2), indent, set_quiet, set_verbosity; the "
-        "stream is observed after every call and compared call by call; the oracle decides allowed / refused from quiet, verbosity "
-        "and flags alone and asks: no byte from a refused call, no mark of a refused text anywhere in the stream, and (decorated) "
-        "screen = stacked contents; non-trivial = at least one refused call")
+        "(plain, wrapped, tagged, two lines, empty), overwrite, clear / clear(1) / clear(2), add_content, indent, set_quiet, "
+        "set_verbosity, and set_quiet / set_verbosity / indent of the OUTPUT the sections belong to (a section created afterwards "
+        "starts with them); the stream is observed after every call and compared call by call; the oracle decides allowed / refused "
+        "from quiet, verbosity and flags alone and asks: no byte from a refused call, no mark of a refused text anywhere in the "
+        "stream, and (decorated) screen = stacked contents; non-trivial = at least one refused call")
 TRUSTED = ["which gate calls guard each method body (Model/Gate.v path) is a transcription, checked by this exhaustive tie",
            "harness/translate.py (fail-closed translator of a pure subset of Python, driven by ast; its reading of that subset and the "
            "declared types of self._quiet / self._verbosity / flags are trusted) regenerates coq/theories/Generated/GenGate.v from "
@@ -27,31 +36,77 @@ TRUSTED = ["which gate calls guard each method body (Model/Gate.v path) is a tra
            "may_write_matches_source, gate_constants_match_source re-check the hand model (Model/Gate.v may_write) against them for "
            "every quiet, verbosity and flags: a second tie of model and code next to the differential run"]
 ASSUMPTIONS = ["verbosity is one of NORMAL/VERBOSE/VERY_VERBOSE/DEBUG (set_verbosity enforces it)",
+               "reading fixed here: the settings of a section output are those its output (its I/O) had when section() was called, "
+               "until set_quiet / set_verbosity are called on the section itself (proposed-fixes/section-inherits-gate.md)",
                "gated_screen_is_stack: the texts of the ALLOWED writes are good markup (C15's class), the refused ones may be "
                "anything; refused_call_is_invisible / refused_text_never_appears: none"]
 # finding made by this model, repaired in /repo a112510: SectionOutput.clear() / overwrite() of a quiet decorated section emitted
 # nothing but cut the recorded content.  The oracle's claim "a refused call leaves no trace" is made for every call.
 
-METHS = ["write", "write_line", "write_raw", "write_line_raw", "overwrite", "clear"]
+METHS = ["write", "write_line", "write_raw", "write_line_raw", "overwrite", "clear", "add_content"]
 IO_METHS = {"write": (0, 0), "write_line": (0, 1), "write_raw": (0, 2), "write_line_raw": (0, 3),
             "error": (1, 0), "error_line": (1, 1), "error_raw": (1, 2), "error_line_raw": (1, 3)}
 FLAGS = [None, 0, 1, 2, 3, 4, 5, 6, 7, 8, 9, -1, 2 ** 40 + 1, 2 ** 40 + 4]
 VERBS = [0, 1, 2, 4]
 FMTS = 5
-# targets: 0 Output, 1 SectionOutput, 2 IO, 3 IO.section()
-ENTRY = ([(0, None, m) for m in range(4)] + [(1, None, m) for m in range(6)] +
-         [(2, n, None) for n in IO_METHS] + [(3, n, None) for n in IO_METHS])
+# what the model knows: the writing methods of an output / a section output (Model/Gate.v meth) and of an I/O (which of its
+# two outputs, which method there).  Everything else that reflection finds writing is an unknown entry point.
+OUT_SEM = {"write": 0, "write_line": 1, "write_raw": 2, "write_line_raw": 3}
+SEC_SEM = dict(OUT_SEM, overwrite=4, clear=5, add_content=6)
+LEGACY_T = {0: ("Output", 0), 1: ("SectionOutput", 1), 2: ("IO", 0), 3: ("IO", 1)}
+PY = "/venv/bin/python"
+
+
+def discover_from(src):
+    """reflection on the tree under test, in a process of its own (the generator's process has not imported clikit)"""
+    here = os.path.dirname(os.path.dirname(os.path.abspath(__file__)))
+    env = dict(os.environ, PYTHONPATH=src + os.pathsep + here, PYTHONDONTWRITEBYTECODE="1", COLUMNS=str(W))
+    p = subprocess.run([PY, "-c", "import json; from props import C10; print(json.dumps(C10.discover()))"], env=env,
+                       stdout=subprocess.PIPE, stderr=subprocess.PIPE, timeout=300, text=True)
+    if p.returncode != 0:
+        raise RuntimeError("reflection on the I/O classes failed: " + p.stderr[-600:])
+    return json.loads(p.stdout.strip().split("\n")[-1])
+
+
+def table_rows(found):
+    """(target class, section variant?, method name) of every entry point the model knows, on every class reflection found"""
+    rows = []
+    for t in found["targets"]:
+        names = [e["name"] for e in found["entries"] if e["cls"] == t["cls"]]
+        for sec in ([0, 1] if t["sec"] else [0]):
+            if t["kind"] == "io":
+                sem = IO_METHS
+            else:
+                sem = SEC_SEM if t["section_class"] else OUT_SEM
+                if sec:
+                    continue
+            # the names the model knows are asked of EVERY class (a class that lost one diverges: the model says it exists)
+            for n in sem:
+                rows.append((t["cls"], sec, n, t["kind"], t["section_class"]))
+    return rows
 
 
 def gen(rng, tier, info):
+    found = discover_from(os.environ.get("CLIKIT_SRC", "/repo/src"))
     cases = [{"reflect": 1}, {"consts": 1}]
-    for (t, ion, m) in ENTRY:
+    n_single = 0
+    for (cls, sec, name, kind, section_class) in table_rows(found):
+        is_sec = bool(sec or section_class)
         for fmt in range(FMTS):
             for q in (0, 1):
                 for v in VERBS:
-                    for f in FLAGS:
-                        for via_io in ((0, 1) if t >= 2 else (0,)):
-                            cases.append({"t": t, "ion": ion, "m": m, "fmt": fmt, "q": q, "v": v, "f": f, "via": via_io})
+                    for f in FLAGS + ["nf"]:
+                        for via_io in ((0, 1) if kind == "io" else (0,)):
+                            # ord 1: the PARENT is given quiet / verbosity, THEN section() is called (clear needs a record)
+                            for order in ((0, 1) if is_sec and name != "clear" else (0,)):
+                                c = {"T": cls, "sec": sec, "k": 1 if is_sec else 0, "name": name, "fmt": fmt, "q": q, "v": v,
+                                     "f": None if f == "nf" else f, "via": via_io}
+                                if f == "nf":
+                                    c["nf"] = 1
+                                if order:
+                                    c["ord"] = 1
+                                cases.append(c)
+                                n_single += 1
     # a refused write must not show up LATER either: two sections on one stream, a write into the newer one (refused or
     # not), then an operation on the older one, which redraws what is below it (seeded change C10-g)
     n_later = 0
@@ -59,10 +114,15 @@ def gen(rng, tier, info):
         for q in (0, 1):
             for v in VERBS:
                 for f in FLAGS:
-                    for m1 in ("write", "write_line", "overwrite"):
+                    for m1 in ("write", "write_line", "overwrite", "add_content"):
+                        if m1 == "add_content" and f is not None:
+                            continue
                         for m2 in ("write", "write_line", "overwrite", "clear"):
                             cases.append({"later": 1, "fmt": fmt, "q": q, "v": v, "f": f, "m1": m1, "m2": m2})
-                            n_later += 1
+                            # inh: the OUTPUT is given quiet / verbosity, THEN the newer section is created - it starts with
+                            # the settings of its output
+                            cases.append({"later": 1, "inh": 1, "fmt": fmt, "q": q, "v": v, "f": f, "m1": m1, "m2": m2})
+                            n_later += 2
     # the newer section HAS content when it is silenced (pre): clear / clear(1) / overwrite have something to act on, a refused
     # write stands next to content that is printed again
     for fmt in (0, 4, 2):
@@ -80,17 +140,31 @@ def gen(rng, tier, info):
     for _ in range(nseq):
         cases.append({"later": 1, "fmt": rng.choice((0, 0, 4, 2)), "ops": seq_ops(rng)})
     info["exhaustive"] = True
-    info["distribution"] = {"entry_points": len(ENTRY), "formatters": FMTS, "flags": len(FLAGS), "cases": len(cases),
+    info["distribution"] = {"classes_found": [t["cls"] + (" (+ its section())" if t["sec"] else "") for t in found["targets"]],
+                            "no_section": found["no_section"],
+                            "public_members_called": len(found["entries"]),
+                            "writers_found": sorted("%s.%s" % (e["cls"], e["name"]) for e in found["entries"] if e["writer"]),
+                            "entry_points": len(table_rows(found)), "single_calls": n_single, "formatters": FMTS,
+                            "flags": len(FLAGS) + 1, "cases": len(cases),
                             "two_section_sequences": n_later, "random_gated_sequences": nseq}
     return cases
 
 
+def norm(case):
+    """a single-call case in the form (target class, section variant, method name); older replays name the target by number"""
+    if "T" in case:
+        return case
+    c = dict(case)
+    c["T"], c["sec"] = LEGACY_T[case["t"]]
+    c["k"] = 1 if case["t"] in (1, 3) else 0
+    c["name"] = case["ion"] or METHS[case["m"]]
+    return c
+
+
 def kind_meth(case):
-    t = case["t"]
-    if t in (0, 1):
-        return t, case["m"]
-    stream, m = IO_METHS[case["ion"]]
-    return (0 if t == 2 else 1), m
+    """the model's view of the entry point: (output | section, method)"""
+    c = norm(case)
+    return c["k"], (IO_METHS[c["name"]][1] if c["name"] in IO_METHS else SEC_SEM[c["name"]])
 
 
 def is_ansi(case):
@@ -135,23 +209,32 @@ def seq_ops(rng):
             ops.append([2, i, "#%02d" % k + rng.choice(SEQ_TEXTS)])
         elif r < 0.72:
             ops.append([3, i, rng.choice((None, None, 1, 2))])
-        elif r < 0.77:
+        elif r < 0.76:
             ops.append([4, i, rng.choice((0, 2, 3))])
-        elif r < 0.88:
+        elif r < 0.83:
             ops.append([5, i, rng.randint(0, 1)])
-        else:
+        elif r < 0.88:
             ops.append([6, i, rng.choice(VERBS)])
+        elif r < 0.92:
+            ops.append([7, rng.randint(0, 1)])                 # the OUTPUT the sections belong to: set_quiet
+        elif r < 0.95:
+            ops.append([8, rng.choice(VERBS)])                 # ... set_verbosity
+        elif r < 0.97:
+            ops.append([9, rng.choice((0, 2, 3))])             # ... indent
+        else:
+            k += 1
+            ops.append([10, i, "#%02d" % k + rng.choice(SEQ_TEXTS)])   # the public add_content
     return ops
 
 
 def seq_walk(case):
     """per call: (allowed?, refused clear/overwrite?) - from quiet / verbosity / flags alone, independent of the model"""
-    gates, out = [], []
+    gates, out, parent = [], [], [0, 0]
     for o in case["ops"]:
         ok, clr = True, False
         if o[0] == 0:
-            gates.append([0, 0])
-        elif o[0] in (1, 2, 3):
+            gates.append(list(parent))          # a section starts with the settings its output has then
+        elif o[0] in (1, 2, 3, 10):
             q, v = gates[o[1]]
             ok = (not q) and v >= lowest(o[3] if o[0] == 1 else None)
             clr = o[0] in (2, 3) and not ok
@@ -159,6 +242,10 @@ def seq_walk(case):
             gates[o[1]][0] = o[2]
         elif o[0] == 6:
             gates[o[1]][1] = o[2]
+        elif o[0] == 7:
+            parent[0] = o[1]
+        elif o[0] == 8:
+            parent[1] = o[1]
         out.append((ok, clr))
     return out
 
@@ -166,14 +253,19 @@ def seq_walk(case):
 def later_groups(case):
     """the calls of a two-section sequence, in two groups (the stream is looked at after each).  One description for both sides:
     [0] section(); [1,i,text,flags,nl] write/write_line; [2,i,text] overwrite; [3,i,n] clear; [4,i,n] indent; [5,i,q] set_quiet;
-    [6,i,v] set_verbosity"""
+    [6,i,v] set_verbosity; on the output the sections belong to: [7,q] set_quiet, [8,v] set_verbosity, [9,n] indent;
+    [10,i,text] add_content"""
     if "ops" in case:
         return [[o] for o in case["ops"]], None
     q, v, m1, m2 = case["q"], case["v"], case["m1"], case["m2"]
-    g1 = [[0], [0], [1, 0, T_OLDER, None, 1]]
-    if case.get("pre"):
-        g1.append([1, 1, T_FIRST, None, 1])                # written while the newer section is still open
-    g1 += [[5, 0, q], [6, 0, v], [5, 1, q], [6, 1, v]]
+    if case.get("inh"):
+        # the output is configured, THEN the newer section is created
+        g1 = [[0], [1, 0, T_OLDER, None, 1], [7, q], [8, v], [0]]
+    else:
+        g1 = [[0], [0], [1, 0, T_OLDER, None, 1]]
+        if case.get("pre"):
+            g1.append([1, 1, T_FIRST, None, 1])                # written while the newer section is still open
+        g1 += [[5, 0, q], [6, 0, v], [5, 1, q], [6, 1, v]]
     f = case["f"]
     if m1 == "overwrite":
         if not case.get("pre"):
@@ -183,10 +275,13 @@ def later_groups(case):
     elif m1 in ("clear", "clear1"):
         g1.append([3, 1, None if m1 == "clear" else 1])
         f = None
+    elif m1 == "add_content":
+        g1.append([10, 1, T_MARK])                         # no flags either
+        f = None
     else:
         g1.append([1, 1, T_MARK, f, 1 if m1 == "write_line" else 0])
     # the older section is written to with everything allowed
-    g2 = [[5, 0, 0], [6, 0, 4]]
+    g2 = [[7, 0], [8, 4], [5, 0, 0], [6, 0, 4]] if case.get("inh") else [[5, 0, 0], [6, 0, 4]]
     if m2 == "clear":
         g2.append([3, 0, None])
     elif m2 == "overwrite":
@@ -203,6 +298,8 @@ def w_op(o):
         return [2, o[1], S(o[2])]
     if o[0] == 3:
         return [3, o[1], [] if o[2] is None else [o[2]]]
+    if o[0] == 10:
+        return [10, o[1], S(o[2])]
     return list(o)
 
 
@@ -230,120 +327,320 @@ def describe(case):
                 return "s%d.overwrite(%r)" % (o[1], o[2])
             if o[0] == 3:
                 return "s%d.clear(%s)" % (o[1], "" if o[2] is None else o[2])
+            if o[0] == 10:
+                return "s%d.add_content(%r)" % (o[1], o[2])
+            if o[0] in (7, 8, 9):
+                return "output.%s(%d)" % ({7: "set_quiet", 8: "set_verbosity", 9: "indent"}[o[0]], o[1])
             return "s%d.%s(%d)" % (o[1], {4: "indent", 5: "set_quiet", 6: "set_verbosity"}[o[0]], o[2])
         fn = ["AnsiFormatter(forced)", "", "PlainFormatter", "", "AnsiFormatter on ANSI stream"][case["fmt"]]
         return "sections on one output (%s, width %d): " % (fn, W) + "; ".join(d(o) for o in case["ops"])
     if "later" in case:
         fn = ["AnsiFormatter(forced)", "AnsiFormatter on plain stream", "PlainFormatter", "NullFormatter", "AnsiFormatter on ANSI stream"][case["fmt"]]
         return ("two sections on one output (%s, width %d)%s, quiet=%s verbosity=%s: newer.%s(%s), then older.%s(...) with everything "
-                "allowed" % (fn, W, ", the newer one written to first" if case.get("pre") else "", bool(case["q"]), case["v"],
+                "allowed" % (fn, W, ", the newer one written to first" if case.get("pre") else
+                             ", the OUTPUT configured before the newer section is created" if case.get("inh") else "", bool(case["q"]), case["v"],
                              case["m1"], "" if case["m1"].startswith("clear") else "'MARK-REFUSED', flags=%r" % (case["f"],), case["m2"]))
-    if "t" not in case:
+    if "t" not in case and "T" not in case:
         return str(case)
-    tn = ["Output", "SectionOutput", "IO", "IO.section()"][case["t"]]
-    mn = case["ion"] if case["ion"] else METHS[case["m"]]
+    c = norm(case)
     fn = ["AnsiFormatter(forced)", "AnsiFormatter on plain stream", "PlainFormatter", "NullFormatter", "AnsiFormatter on ANSI stream"][case["fmt"]]
-    return "%s.%s formatter=%s quiet=%s verbosity=%s flags=%r (settings via %s)" % (
-        tn, mn, fn, bool(case["q"]), case["v"], case["f"], "IO setters" if case["via"] else "the output")
+    return "%s.%s(%s) formatter=%s quiet=%s verbosity=%s (settings via %s%s)" % (
+        target_name(c), c["name"], "'MARK'" + ("" if c.get("nf") else ", %r" % (c["f"],)), fn, bool(case["q"]), case["v"],
+        "IO setters" if case["via"] else "the outputs", ", given to the PARENT before section() is called" if c.get("ord") else "")
 
 
-def _mk(case):
-    from clikit.api.io import IO, Input, Output
-    from clikit.io.input_stream import StringInputStream
+def target_name(c):
+    return c["T"] + (".section()" if c["sec"] else "")
+
+
+def _streams(fmt):
     from clikit.io.output_stream import BufferedOutputStream
     from clikit.formatter import AnsiFormatter, PlainFormatter, NullFormatter
 
     class AnsiStream(BufferedOutputStream):
         def supports_ansi(self):
             return True
-    fmt = case["fmt"]
     mkfmt = [lambda: AnsiFormatter(forced=True), lambda: AnsiFormatter(), lambda: PlainFormatter(),
              lambda: NullFormatter(), lambda: AnsiFormatter()][fmt]
     mkstream = AnsiStream if fmt == 4 else BufferedOutputStream
-    so, se = mkstream(), mkstream()
-    f = mkfmt()
+    return mkstream(), mkstream(), mkfmt()
+
+
+def _mk(case):
+    from clikit.api.io import IO, Input, Output
+    from clikit.io.input_stream import StringInputStream
+    so, se, f = _streams(case["fmt"])
     io = IO(Input(StringInputStream("")), Output(so, f), Output(se, f))
     return io, so, se
 
 
+# ---------------------------------------------------------------- reflection
+_CLASSES = None
+
+
+def io_classes():
+    """every class DEFINED in a module of clikit.api.io / clikit.io that is an Output or an IO, by walking the packages"""
+    global _CLASSES
+    if _CLASSES is None:
+        _CLASSES = _io_classes()
+    return _CLASSES
+
+
+def _io_classes():
+    import pkgutil, importlib, inspect
+    import clikit.api.io, clikit.io
+    from clikit.api.io import IO, Output
+    found = {}
+    for pkg in (clikit.api.io, clikit.io):
+        mods = [pkg] + [importlib.import_module(mi.name) for mi in pkgutil.walk_packages(pkg.__path__, pkg.__name__ + ".")]
+        for mod in mods:
+            for n, c in sorted(vars(mod).items()):
+                if inspect.isclass(c) and c.__module__ == mod.__name__ and issubclass(c, (Output, IO)):
+                    found[c.__name__] = c
+    return found
+
+
+def instance(cls, so, se, f):
+    """an instance of an Output / IO class on the recording streams so / se.  -> (object, [base outputs])"""
+    from clikit.api.io import IO, Input, Output
+    from clikit.api.io.section_output import SectionOutput
+    from clikit.io.input_stream import StringInputStream
+    if issubclass(cls, IO):
+        inp, out, eo = Input(StringInputStream("line\n")), Output(so, f), Output(se, f)
+        try:
+            obj = cls(inp, out, eo)
+            if obj.output is not out or obj.error_output is not eo:
+                raise TypeError("other constructor")
+        except Exception:  # noqa
+            # a constructor of its own (BufferedIO, NullIO build their streams themselves): the class on OUR outputs
+            obj = cls.__new__(cls)
+            IO.__init__(obj, inp, out, eo)
+        return obj, [out, eo]
+    if issubclass(cls, SectionOutput):
+        base = Output(so, f)
+        return None, [base]              # made by base.section(), see target()
+    return cls(so, f), []
+
+
+class Target(object):
+    """the object a case calls, the streams it writes to, and (sections) an OLDER and a NEWER section next to it on each stream"""
+    pass
+
+
+def target(cls, sec, fmt, configure=None):
+    """configure(objects): called on the parent(s) right BEFORE section() when the case says so"""
+    from clikit.api.io import IO
+    from clikit.api.io.section_output import SectionOutput
+    so, se, f = _streams(fmt)
+    t = Target()
+    t.so, t.se = so, se
+    obj, bases = instance(cls, so, se, f)
+    t.older, t.newer = [], []
+    is_sec = sec or (obj is None)
+    if is_sec:
+        for b in bases:
+            o = b.section()
+            o.write_line("older")
+            t.older.append(o)
+    if obj is None:
+        t.parent = bases[0]
+        if configure:
+            configure(t.parent)
+        obj = bases[0].section()
+        if not isinstance(obj, cls):
+            raise RuntimeError("no way to make a %s" % cls.__name__)
+    elif sec:
+        t.parent = obj
+        if configure:
+            configure(t.parent)
+        obj = obj.section()
+    t.obj = obj
+    t.outs = [obj.output, obj.error_output] if isinstance(obj, IO) else [obj]
+    t.is_sec = bool(is_sec)
+    return t
+
+
+def add_newer(t):
+    for b in ([t.parent.output, t.parent.error_output] if hasattr(t.parent, "error_output") else [t.parent]):
+        n = b.section()
+        n.write_line("newer")
+        t.newer.append(n)
+
+
+def trigger(t):
+    """what makes a recorded text reach the stream later: a write into an older section of the same stream, a flush"""
+    for o in t.older:
+        o.set_quiet(False)
+        o.write_line("T")
+    try:
+        t.obj.flush()
+    except Exception:  # noqa
+        pass
+
+
+MARK = "MARK"
+
+
+def arg_vectors(fn):
+    """argument lists to call a public callable with: its required positional parameters all given one candidate value (the
+    first ones a text that can be looked for in the stream)"""
+    import inspect
+    from clikit.io.output_stream import BufferedOutputStream
+    from clikit.formatter import PlainFormatter
+    from clikit.api.formatter import Style
+    try:
+        params = [p for p in inspect.signature(fn).parameters.values()]
+    except (TypeError, ValueError):
+        params = []
+    req = [p for p in params if p.default is inspect.Parameter.empty and p.kind in (p.POSITIONAL_ONLY, p.POSITIONAL_OR_KEYWORD)]
+    n = len(req)
+    cands = [lambda: MARK, lambda: [MARK], lambda: 1, lambda: True, lambda: BufferedOutputStream(), lambda: PlainFormatter(),
+             lambda: Style("mark"), lambda: None]
+    if n == 0:
+        return [[]]
+    return [[c() for _ in range(n)] for c in cands]
+
+
+def discover():
+    """Every public member of every Output / IO class (cls.__dict__ along the MRO, so that an override counts for the class
+    that overrides), CALLED on a recording stream, decorated and not, verbosity DEBUG, not quiet:
+      writer 'now'    the stream grew during the call
+      writer 'later'  it did not, but the text the call was given is on the stream after a write into an older section
+      uncallable      every argument list raised before anything could be seen"""
+    import inspect
+    classes = io_classes()
+    from clikit.api.io import IO
+    from clikit.api.io.section_output import SectionOutput
+    targets, entries, no_section = [], [], []
+    for cname, cls in sorted(classes.items()):
+        kind = "io" if issubclass(cls, IO) else "out"
+        has_sec = 0
+        if kind == "io":
+            try:
+                target(cls, 1, 0)
+                has_sec = 1
+            except Exception as e:  # noqa
+                no_section.append("%s.section(): %s" % (cname, type(e).__name__))
+        targets.append({"cls": cname, "kind": kind, "sec": has_sec, "section_class": 1 if issubclass(cls, SectionOutput) else 0})
+        names = {}
+        for k in cls.__mro__:
+            if k not in classes.values():
+                continue          # (object, the abstract Formatter interface: not classes of the I/O packages)
+            for n, m in vars(k).items():
+                if not n.startswith("_") and n not in names:
+                    names[n] = k.__name__
+        for n, definer in sorted(names.items()):
+            raw = inspect.getattr_static(cls, n)
+            writer, called = None, False
+            for sec in ([0, 1] if has_sec else [0]):
+                for fmt in (0, 2):
+                    for vi in range(8):
+                        t = target(cls, sec, fmt)
+                        # (the argument lists are made for the BOUND member of this very object)
+                        vectors = [None] if isinstance(raw, property) else arg_vectors(getattr(t.obj, n))
+                        if vi >= len(vectors):
+                            break
+                        vec = vectors[vi]
+                        if t.is_sec:
+                            add_newer(t)
+                            for o in t.outs:
+                                o.write_line("content")
+                        for o in t.outs:
+                            o.set_verbosity(4)
+                        b0 = (t.so.fetch(), t.se.fetch())
+                        try:
+                            if vec is None:
+                                getattr(t.obj, n)
+                            else:
+                                getattr(t.obj, n)(*vec)
+                            called = True
+                        except Exception:  # noqa
+                            pass
+                        b1 = (t.so.fetch(), t.se.fetch())
+                        if not (b0[0].startswith(b1[0]) and b0[1].startswith(b1[1])):
+                            writer = "now"          # something new is on a stream (emptying a buffer is not writing)
+                            continue
+                        try:
+                            trigger(t)
+                        except Exception:  # noqa
+                            continue
+                        b2 = (t.so.fetch(), t.se.fetch())
+                        if (MARK in b2[0][len(b1[0]):] or MARK in b2[1][len(b1[1]):]) and writer is None:
+                            writer = "later"
+            entries.append({"cls": cname, "name": n, "defined_in": definer, "writer": writer, "called": called,
+                            "member": type(raw).__name__})
+    return {"targets": targets, "entries": entries, "no_section": no_section}
+
+
+# NullIO().section() raises TypeError on the unchanged tree (IO.section() calls self.__class__(input, output, error_output),
+# NullIO.__init__ takes no argument): there is no section output of a NullIO, nothing of C10 can be asked of it.  Any OTHER
+# public member that cannot be called with any of the argument lists cannot be classified: a correspondence break.
+UNCALLABLE = ["NullIO.section"]
+
+
+def unknown_writers(found):
+    """-> (writers under a name the model has no row for, members that could not be called at all)"""
+    out, unc = [], []
+    kinds = dict((t["cls"], t) for t in found["targets"])
+    for e in found["entries"]:
+        t = kinds[e["cls"]]
+        sem = IO_METHS if t["kind"] == "io" else (SEC_SEM if t["section_class"] else OUT_SEM)
+        if e["writer"] and e["name"] not in sem:
+            out.append("%s.%s writes (%s)" % (e["cls"], e["name"], e["writer"]))
+        if not e["called"]:
+            unc.append("%s.%s" % (e["cls"], e["name"]))
+    return sorted(out), sorted(unc)
+
+
+# ---------------------------------------------------------------- one call of the table
 def _call(case, permissive):
-    """returns the bytes appended to the observed stream by the call"""
-    io, so, se = _mk(case)
-    t = case["t"]
-    if t in (0, 1):
-        stream = so
-        out = io.output if t == 0 else io.output.section()
-        target, name = out, METHS[case["m"]]
-        outs = [out]
-        setter = None
-    else:
-        sidx, _ = IO_METHS[case["ion"]]
-        tio = io if t == 2 else io.section()
-        stream = so if sidx == 0 else se
-        target, name = tio, case["ion"]
-        outs = [tio.output, tio.error_output]
-        setter = tio
-    if not hasattr(target, name):
+    """returns the bytes appended to the observed stream by the call (for add_content: by the call and the write into an
+    older section that follows it)"""
+    c = norm(case)
+    cls = io_classes().get(c["T"])
+    if cls is None:
         return None
-    secs = [o for o in outs if hasattr(o, "add_content")]
-    # sections get prior content so that clear/overwrite have something to act on, and a newer
-    # sibling section with content (so that writing has to erase and re-print it)
-    for o in secs:
-        o.write_line("content")
-    if secs:
-        base = [io.output, io.error_output]
-        for b in base:
-            newer = b.section()
-            newer.write_line("newer")
-    q, v, f = (0, 4, None) if permissive else (case["q"], case["v"], case["f"])
-    if setter is not None and case["via"]:
-        setter.set_quiet(bool(q))
-        setter.set_verbosity(v)
-    else:
-        for o in outs:
-            o.set_quiet(bool(q))
-            o.set_verbosity(v)
+    q, v, f = (0, 4, None) if permissive else (c["q"], c["v"], c["f"])
+    name = c["name"]
+
+    def configure(x, via=c["via"]):
+        outs = [x.output, x.error_output] if hasattr(x, "error_output") else [x]
+        if via and hasattr(x, "error_output"):
+            x.set_quiet(bool(q))
+            x.set_verbosity(v)
+        else:
+            for o in outs:
+                o.set_quiet(bool(q))
+                o.set_verbosity(v)
+    t = target(cls, c["sec"], c["fmt"], configure if c.get("ord") else None)
+    if not hasattr(t.obj, name):
+        return None
+    if t.is_sec and not c.get("ord"):
+        # sections get prior content so that clear/overwrite have something to act on, and a newer sibling section with
+        # content (so that writing has to erase and re-print it)
+        for o in t.outs:
+            o.write_line("content")
+        add_newer(t)
+    if not c.get("ord"):
+        configure(t.obj)
+    stream = t.se if (name in IO_METHS and IO_METHS[name][0] == 1) else t.so
     before = stream.fetch()
-    meth = getattr(target, name)
+    meth = getattr(t.obj, name)
     if name == "clear":
         meth()
-    elif name == "overwrite":
-        meth("MARK")
-    elif permissive or f is None:
-        meth("MARK") if (permissive or case.get("nf")) else meth("MARK", None)
+    elif name in ("overwrite", "add_content"):
+        meth(MARK)
+    elif permissive or c.get("nf"):
+        meth(MARK)
     else:
-        meth("MARK", f)
+        meth(MARK, f)
+    if name == "add_content":
+        mid = stream.fetch()
+        if len(mid) != len(before):
+            return mid[len(before):]           # add_content itself writes nothing
+        trigger(t)
     after = stream.fetch()
     return after[len(before):]
-
-
-def _reflect():
-    import inspect
-    from clikit.api.io import IO, Output
-    from clikit.api.io.section_output import SectionOutput
-    import clikit.io as cio
-    found = []
-    classes = [("Output", Output), ("SectionOutput", SectionOutput), ("IO", IO)]
-    for n in dir(cio):
-        c = getattr(cio, n)
-        if inspect.isclass(c) and issubclass(c, IO) and c is not IO:
-            classes.append((n, c))
-    for cname, cls in classes:
-        for name, fn in inspect.getmembers(cls, predicate=inspect.isfunction):
-            if name.startswith("_"):
-                continue
-            params = list(inspect.signature(fn).parameters)
-            if (len(params) >= 2 and params[1] in ("string", "message")) or name == "clear":
-                found.append("%s.%s" % (cname, name))
-    return sorted(found)
-
-
-KNOWN = sorted(["Output.write", "Output.write_line", "Output.write_raw", "Output.write_line_raw",
-                "Output.format", "Output.remove_format",
-                "SectionOutput.write", "SectionOutput.write_line", "SectionOutput.write_raw", "SectionOutput.write_line_raw",
-                "SectionOutput.overwrite", "SectionOutput.clear", "SectionOutput.format", "SectionOutput.remove_format"] +
-               ["%s.%s" % (c, n) for c in ("IO", "BufferedIO", "ConsoleIO", "NullIO") for n in list(IO_METHS) + ["format", "remove_format"]])
-NONWRITING = ("format", "remove_format")
 
 
 def _later(case):
@@ -366,8 +663,16 @@ def _later(case):
                 secs[o[1]].indent(o[2])
             elif o[0] == 5:
                 secs[o[1]].set_quiet(bool(o[2]))
-            else:
+            elif o[0] == 6:
                 secs[o[1]].set_verbosity(o[2])
+            elif o[0] == 7:
+                io.output.set_quiet(bool(o[1]))
+            elif o[0] == 8:
+                io.output.set_verbosity(o[1])
+            elif o[0] == 9:
+                io.output.indent(o[1])
+            else:
+                secs[o[1]].add_content(o[2])
         data = so.fetch()
         seen.append(data[done:])
         done = len(data)
@@ -383,17 +688,19 @@ def run_impl(case):
         except Exception as e:
             return ["EXC", type(e).__name__, str(e)[:100], err(e)]
     if "reflect" in case:
-        return ["REFLECT", _reflect()]
+        return ["REFLECT"] + list(unknown_writers(discover()))
     if "consts" in case:
         from clikit.api.io import flags
         return [flags.NORMAL, flags.VERBOSE, flags.VERY_VERBOSE, flags.DEBUG]
     try:
         perm = _call(case, True)
         exists = perm is not None and len(perm) > 0
+        if norm(case)["name"] == "add_content":
+            exists = perm is not None and MARK in perm      # (the write into the older section that follows has bytes of its own)
         got = _call(case, False)
     except Exception as e:
         return ["EXC", type(e).__name__, str(e)[:100]]
-    name = case["ion"] or METHS[case["m"]]
+    name = norm(case)["name"]
     if got is None:
         emitted = False
     elif name == "clear":
@@ -414,7 +721,8 @@ def canon_model(case, obs):
         # (0 emits-per-group sections terminal): the implementation side is brought to the same shape
         return obs
     if "reflect" in case:
-        return ["REFLECT", KNOWN]
+        # no writing entry point beyond those of Model/Gate.v; every member but the known one could be called
+        return ["REFLECT", [], [S(x) for x in UNCALLABLE]]
     return obs
 
 
@@ -428,9 +736,8 @@ def canon_impl(case, obs):
             return [0, [termemu.tokens(mid), termemu.tokens(after)], state, _screen([mid, after])]
         return obs[3] if obs and obs[0] == "EXC" else obs
     if "reflect" in case:
-        # sections of other IO classes (BufferedIO etc.) appear under their class names
-        return ["REFLECT", sorted(x for x in obs[1])]
-    if "t" in case and obs and obs[0] != "EXC":
+        return ["REFLECT", [S(x) for x in obs[1]], [S(x) for x in obs[2]]]
+    if ("t" in case or "T" in case) and obs and obs[0] != "EXC":
         return obs[:2]
     return obs
 
@@ -469,18 +776,23 @@ def oracle_seq(case, seen, state):
     walk = seq_walk(case)
     whole = "".join(seen)
     for o, (ok, clr), data in zip(case["ops"], walk, seen):
-        name = {0: "section", 1: "write", 2: "overwrite", 3: "clear", 4: "indent", 5: "set_quiet", 6: "set_verbosity"}[o[0]]
+        name = {0: "section", 1: "write", 2: "overwrite", 3: "clear", 4: "indent", 5: "set_quiet", 6: "set_verbosity",
+                7: "output.set_quiet", 8: "output.set_verbosity", 9: "output.indent", 10: "add_content"}[o[0]]
         if not ok and data:
             return "bytes-despite-gate:SectionOutput.%s" % name
-        if o[0] in (1, 2):
+        if o[0] in (1, 2, 10):
             if not ok and o[2][:3] in whole:
                 return "refused-text-appears-later:SectionOutput.%s" % name
-            if ok and o[2][:3] not in data:
+            if ok and o[0] != 10 and o[2][:3] not in data:
                 return "gate:SectionOutput.%s" % name
+            if o[0] == 10 and data:
+                return "emits-without-path"
         elif o[0] not in (3,) and data:
             return "emits-without-path"
     if not is_ansi(case):
         return None
+    if any(o[0] == 10 and ok for o, (ok, _) in zip(case["ops"], walk)):
+        return None       # an allowed add_content puts on record what is not on the screen: the stack claim is not made
     bad = screen_vs_stack(seen, state)
     if bad == "screen-differs-from-stacked-contents" and not all(ok for ok, _ in walk):
         return "refused-call-leaves-a-trace"
@@ -498,7 +810,16 @@ def oracle(case, obs):
         m1 = case["m1"]
         exp = (not case["q"]) and case["v"] >= lowest(f)
         if not exp and ("MARK-REFUSED" in mid or "MARK-REFUSED" in after):
-            return "refused-text-appears-later:SectionOutput.%s then %s" % (m1, case["m2"])
+            return "%s:SectionOutput.%s then %s" % ("section-ignores-the-gate-of-its-output" if case.get("inh") else
+                                                     "refused-text-appears-later", m1, case["m2"])
+        if m1 == "add_content":
+            # recorded, not written: the text must not be on the stream at once; on a decorated output it is printed with
+            # the newer sections when the older one is written to
+            if "MARK-REFUSED" in mid:
+                return "emits-without-path"
+            if exp and is_ansi(case) and "MARK-REFUSED" not in after:
+                return "gate:SectionOutput.add_content"
+            return None
         if exp and not m1.startswith("clear") and "MARK-REFUSED" not in mid:
             return "gate:SectionOutput.%s" % m1
         if not is_ansi(case):
@@ -510,24 +831,29 @@ def oracle(case, obs):
             return "refused-call-leaves-a-trace:SectionOutput.%s" % m1
         return bad
     if "reflect" in case:
-        unknown = [x for x in obs[1] if x not in KNOWN]
-        if unknown:
-            return "unknown-entry-point:" + ",".join(unknown)
+        if obs[1]:
+            return "unknown-entry-point:" + ", ".join(obs[1])
+        if [x for x in obs[2] if x not in UNCALLABLE]:
+            return "member-cannot-be-classified:" + ", ".join(x for x in obs[2] if x not in UNCALLABLE)
         return None
     if "consts" in case:
         return None if obs == [0, 1, 2, 4] else "flag-constants-changed"
     if obs and obs[0] == "EXC":
         return "exception:" + obs[1]
     exists, emitted, anybytes = obs
-    name = case["ion"] or METHS[case["m"]]
-    f = case["f"] if name not in ("overwrite", "clear") else None
+    c = norm(case)
+    name = c["name"]
+    f = case["f"] if name not in ("overwrite", "clear", "add_content") else None
     if not exists:
         return None if not emitted else "emits-without-path"
     exp = (not case["q"]) and case["v"] >= lowest(f)
     if bool(emitted) != exp:
-        return "gate:%s.%s" % (["Output", "SectionOutput", "IO", "IO.section()"][case["t"]], name)
-    if not exp and anybytes:
-        return "bytes-despite-gate:%s.%s" % (["Output", "SectionOutput", "IO", "IO.section()"][case["t"]], name)
+        if c.get("ord"):
+            # the settings were given to the output (the I/O) BEFORE section() was called
+            return "section-ignores-the-gate-of-its-output:%s.%s" % (target_name(c), name)
+        return "gate:%s.%s" % (target_name(c), name)
+    if not exp and anybytes and name != "add_content":
+        return "bytes-despite-gate:%s.%s" % (target_name(c), name)
     return None
 
 
@@ -535,11 +861,12 @@ def nontrivial_key(case, obs):
     if "ops" in case:
         return ["seq", case["fmt"], case["ops"]] if not all(ok for ok, _ in seq_walk(case)) else None
     if "later" in case:
-        if case["f"] not in (None, 0) or case.get("pre"):
-            return ["later", case.get("pre", 0)] + [case[k] for k in ("fmt", "q", "v", "f", "m1", "m2")]
+        if case["f"] not in (None, 0) or case.get("pre") or case.get("inh") or case["m1"] == "add_content":
+            return ["later", case.get("pre", 0), case.get("inh", 0)] + [case[k] for k in ("fmt", "q", "v", "f", "m1", "m2")]
         return None
-    if "t" in case and obs and obs[0] == 1 and case["f"] not in (None, 0):
-        return [case[k] for k in ("t", "ion", "m", "fmt", "q", "v", "f", "via")]
+    if ("t" in case or "T" in case) and obs and obs[0] == 1 and case["f"] not in (None, 0):
+        c = norm(case)
+        return [c[k] for k in ("T", "sec", "name", "fmt", "q", "v", "f", "via")] + [c.get("ord", 0)]
     return None
 
 
